@@ -775,6 +775,15 @@ def enc_expected_send(case):
     return res
 
 
+def _in_push_call(items, k):
+    """is item k inside a send(..., push=True) call (flow control is bypassed on purpose there)?"""
+    for j in range(k, -1, -1):
+        raw = items[j][3]
+        if raw[0] == 'call':
+            return bool(raw[5])
+    return False
+
+
 def send_oracle(run, case, props):
     """properties of one publisher instance, on the observed publishes"""
     cfg = case['cfg']
@@ -793,6 +802,37 @@ def send_oracle(run, case, props):
         for o in it[1]:
             if o[0] == 'P' and o[-1] == 'malformed' and 'C01' in props:
                 run.violation('sender:malformed-publish', 'one publish carried differing ids/topic lists or no single heartbeat', summary)
+    if props & {'C04', 'C06'} and not cfg['balance']:
+        # the two halves of flow control on the publisher's client table, judged on the state digests:
+        #  (a) a tracked client leaves the table only by its own CLOSE or after CONN_TIMEOUT of silence (C04_eviction_only_after_timeout)
+        #  (b) a frame goes out only when every tracked synchronized client has an unanswered request (C04_gate_needs_every_sync_client)
+        prev = None
+        for k, it in enumerate(case['items']):
+            dig, raw = it[2], it[3]
+            if dig is None:
+                break
+            now_ms = (raw[2] if raw[0] == 'poll' else raw[-1] if raw[0] == 'call' else None)
+            req = raw[1] if raw[0] == 'poll' else None
+            if prev is not None:
+                after = {(c[0], c[1]): c for c in dig[1]}
+                for key, c in prev.items():
+                    if key in after:
+                        continue
+                    closed = bool(req) and (req['cid'], req['uid']) == key and req['mid'] == -3
+                    silent = now_ms is not None and now_ms // 1_000_000 - c[3] > 5000
+                    if not closed and not silent:
+                        run.violation('sender:evicted-early client=c%d/u%d' % key,
+                                      'client c%d/u%d (last heard %s ms, now %s ms) left the wait set at item %d without CLOSE or timeout' % (key[0], key[1], c[3], None if now_ms is None else now_ms // 1_000_000, k), summary)
+                pubs_here = [o for o in it[1] if o[0] == 'P']
+                is_push = _in_push_call(case['items'], k)
+                if pubs_here and not is_push:
+                    for key, c in prev.items():
+                        asked_now = bool(req) and (req['cid'], req['uid']) == key and req['mid'] > -2
+                        if c[5] == 0 and not c[4] and not asked_now and key in after and not (bool(req) and (req['cid'], req['uid']) == key):
+                            run.violation('sender:published-without-request client=c%d/u%d' % key,
+                                          'item %d publishes id %s although the tracked synchronized client c%d/u%d has no unanswered request' % (k, pubs_here[0][2], key[0], key[1]), summary)
+                            break
+            prev = {(c[0], c[1]): c for c in dig[1]}
     if 'C08' in props:
         # an out-of-band message (a downstream filter's exit announcement) is handed up whoever sent it: registered client or
         # not (a filter that dies in setup() has never asked for a frame; one that was silent for 5 s has been evicted)
